@@ -95,12 +95,11 @@ def r1(ctx):
     ctx.require(pre, b, 'scan-precondition', 'the scan is dominated by assert!(!self.all_finished())', None, hdr_span)
     af = ctx.body(G + '::all_finished')
     rv = ret_values(af)
-    okaf = len(rv) == 1 and match(rv[0][0], Call('::all', Pred(lambda t: has(t, SELF_FIN)), ANY))
-    if okaf:
-        clo = closure_of(ctx, rv[0][0][2][1])
-        crv = ret_values(clo)
-        okaf = len(crv) == 1 and match(core(crv[0][0]), ('arg', 2, ANY))
-    ctx.require(okaf, af, 'all-finished', 'all_finished() = finished.iter().all(|f| *f)', None)
+    from analysis.quant import quant_nf
+    from analysis.seq import ITEM as _ITEM
+    q = quant_nf(ctx.facts, af, rv[0][0]) if len(rv) == 1 else None
+    okaf = q is not None and q[0] == 'all' and match(q[1], SELF_FIN) and core(q[2]) == _ITEM
+    ctx.require(okaf, af, 'all-finished', 'all_finished() = every flag of self.finished is true', 'all_finished() is %s' % str([show_in(af, v) for v, _ in rv] if q is None else (q[0], show_in(af, q[1]), show_in(af, q[2]))))
 
 
 @rule('C07', 'R-C07-2', 'T1 ORDER',
@@ -154,6 +153,7 @@ def r3(ctx):
     good = val[0] == 'agg' and val[1] == 'tuple' and len(val[3]) == 2 and \
         match(core(val[3][0]), Call('::next', ('index', ('field', ('arg', 1, ANY), 'generators'), SELF_IDX))) and \
         match(core(val[3][1]), SELF_IDX)
+    somes_tuple_ok = good
     ctx.require(good, b, 'tag', 'yielded value = (pulled item, self.idx)', 'yielded value is %s' % show_in(b, val),
                 b.blocks[bb].term.span)
     # the tuple is built before next_idx(): find the aggregate statement
@@ -175,8 +175,11 @@ def r3(ctx):
     for st_, pl_ in [(ts, ts.rv.ops[1].place)] if (ts.rv.ops[1].place is not None and ts.rv.ops[1].place.proj) else memory_reads(b, ts.rv.ops[1]):
         if not match(sym(b, pl_), SELF_IDX):
             continue
-        fresh = cfg.dominates(b, pull.bb, st_.bb) and st_.bb != pull.bb and \
-            not [c for c in sel if st_.bb in cfg.reach_from_succ(b, c.bb, removed_blocks=[pull.bb])]
+        # stale iff a re-selection can happen after this read and before the pull that produced the item (without the index
+        # being read again): path read -> next_idx() -> pull that avoids the read
+        stale = [c for c in sel if c.bb in cfg.reach_from_succ(b, st_.bb) | ({st_.bb} if c.bb == st_.bb else set()) and
+                 pull.bb in cfg.reach_from_succ(b, c.bb, removed_blocks=[st_.bb])]
+        fresh = not stale
         ctx.require(fresh, b, 'tag-read-after-pull',
                     'the source index stored in the pair is read (line %d) after the pull that produced the item' % st_.span['line'],
                     'the source index stored in the pair is read at line %d, before the pull / before a possible re-selection: '
@@ -227,33 +230,28 @@ def r6(ctx):
         raise AnchorMissing('Rng::sample in the Weighted arm')
     ctx.require(match(core(sym(b, smp[0].args[0])), ('field', ('arg', 1, ANY), 'rng')), b, 'weighted-rng',
                 'the sample is drawn from self.rng', 'sample is drawn from %s' % show_in(b, sym(b, smp[0].args[0])), smp[0].span)
+    from analysis.seq import seq_of, ITEM
     st = [(s, t, v) for s, t, v in _stores(b) if s.bb in arm and match(t, SELF_IDX)]
+    unfinished = lambda sg: sg.kind == 'each' and match(core(sg.src), Call('Iterator::enumerate', SELF_FIN)) and \
+        len(sg.conds) == 1 and sg.conds[0][1] is False and core(sg.conds[0][0]) == ('field', ITEM, 1)
     good = False
+    segs = None
     if len(st) == 1:
-        v = core(st[0][2])
+        v = peel(st[0][2])
         if v[0] == 'index' and has(v[2], Call('sample')):
-            src, names = chain_names(v[1])
-            good = 'filter_map' in names and 'enumerate' in names and has(src, SELF_FIN)
-            fm = [x for x in walk(v[1]) if isinstance(x, tuple) and x and x[0] == 'call' and x[1].endswith('filter_map')]
-            if good and fm:
-                clo = closure_of(ctx, fm[0][2][1])
-                for rv, bb in ret_values(clo):
-                    if rv[0] == 'agg' and rv[2].endswith('Option::Some'):
-                        unf = any(pol is False and match(core(tt), ('field', ('arg', 2, ANY), 1)) for tt, pol, g in atoms_at(clo, bb))
-                        ctx.require(unf and match(core(rv[3][0]), ('field', ('arg', 2, ANY), 0)), clo, 'weighted-candidates',
-                                    'candidates are the indices with finished == false', None)
-    ctx.require(good, b, 'weighted-index', 'self.idx := unfinished_indices[sample]', None, smp[0].span)
+            segs = seq_of(ctx.facts, b, v[1])
+            good = segs is not None and len(segs) == 1 and unfinished(segs[0]) and core(segs[0].elem) == ('field', ITEM, 0)
+    ctx.require(good, b, 'weighted-index', 'self.idx := unfinished_indices[sample], the candidates being the indices with finished == false in ascending order',
+                'the sampled position is mapped through %s' % ([repr(x)[:140] for x in segs] if segs is not None else 'an unrecognised expression'), smp[0].span)
     wi = [t for t in b.calls(r'WeightedIndex::new$') if t.bb in arm]
     good = False
+    wsegs = None
     if len(wi) == 1:
-        w = sym(b, wi[0].args[0])
-        mp = [x for x in walk(w) if isinstance(x, tuple) and x and x[0] == 'call' and x[1].endswith('Iterator::map')]
-        if mp:
-            clo = closure_of(ctx, mp[0][2][1])
-            crv = ret_values(clo)
-            good = len(crv) == 1 and match(core(crv[0][0]), ('index', ('upvar', 0, ANY), ('arg', 2, ANY))) and \
-                match(core(mp[0][2][1][3][0]), ('field', ('arg', 1, ANY), 'lengths'))
-    ctx.require(good, b, 'weighted-weights', 'weights = lengths[i] of the unfinished sources', None, wi[0].span if wi else None)
+        wsegs = seq_of(ctx.facts, b, sym(b, wi[0].args[0]))
+        good = wsegs is not None and len(wsegs) == 1 and unfinished(wsegs[0]) and \
+            match(core(wsegs[0].elem), ('index', ('field', ('arg', 1, ANY), 'lengths'), ('field', ITEM, 0)))
+    ctx.require(good, b, 'weighted-weights', 'weights = lengths[i] of the unfinished sources, in the order of the candidates',
+                'the weights are %s' % ([repr(x)[:140] for x in wsegs] if wsegs is not None else 'unrecognised'), wi[0].span if wi else None)
     n = ctx.body(G + '::new')
     for t in n.calls(r'from_os_rng$|from_entropy$|rand::rng$|thread_rng$'):
         under_none = any(match(tt, ('arg', 3, ANY)) and names == {'None'} for tt, names in variant_facts_at(n, t.bb))
